@@ -45,6 +45,7 @@ def nzDe : Wire → Except DeErr (Option Int)
         else if v < 9223372036854775808 then .ok (some v) else .error .invalidValue   -- i64::try_from
     | .i64 v => if v = 0 then .ok none else .ok (some v)
     | .f64 => .error .invalidType
+  | .null => .ok none                 -- `deserialize_option`: JSON null is absent
   | _ => .error .invalidType
 
 def nzSer : Option Int → Wire
@@ -99,6 +100,7 @@ def strDe : Wire → Except DeErr (Option Int)
       match parseI64 s with
       | some i => .ok (some i)
       | none => .error .invalidValue
+  | .null => .ok none
   | _ => .error .invalidType
 
 def strSer : Option Int → Wire
@@ -132,6 +134,7 @@ def dateDe : Wire → Except DeErr (Option Date)
         -- i32::try_from(year).ok().and_then(from_ymd_opt): a year beyond i32 is beyond chrono's range too
         .ok (fromYmdOpt (v / 10000) ((v / 100) % 100) (v % 100))
     | _ => .error .invalidType
+  | .null => .ok none
   | _ => .error .invalidType
 
 def dateSer : Option Date → Wire
